@@ -70,12 +70,13 @@ class Fn(object):
         """CONTEXT obligation for one statement: it runs under the conditions recorded in contexts.json."""
         c = run_context(self, st, binding, resolved=False)
         if c is not None:
-            self.cx.context_ob(self, rule, inst, st, {'as written': c, 'resolved': run_context(self, st, binding, resolved=True)})
+            self.cx.context_ob(self, rule, inst, st, {'as written': c, 'resolved': run_context(self, st, binding, resolved=True),
+                                                      'temporaries written out': run_context(self, st, binding, resolved='temps')})
 
     def exits_ob(self, rule):
         """CONTEXT obligations for the exits of a function that has no inventory: its returns and its raises
         (exception type) with the conditions under which they run."""
-        context_obligations(self, rule, {}, {}, None)
+        context_obligations(self, rule, {}, {}, None, raises_only=True)
 
     def callee(self, call):
         """Dotted name of the callee; a local name bound once to a dotted callable
@@ -909,8 +910,13 @@ def run_context(fn, st, binding=None, resolved=True, extra_tests=()):
             pol = False
         if pol is None:
             continue
-        tnf = sym.norm(g.test)
-        if resolved:
+        tnf = sym.Normalizer().n(g.test)
+        if resolved == 'temps':
+            try:
+                tnf = sym.expand_temps(tnf, fn.cdefs())
+            except Exception:
+                pass
+        elif resolved:
             try:
                 r_ = sym.Normalizer(resolver=fn.resolver(g)).n(g.test)
                 if '#phi' not in repr(r_):
@@ -920,7 +926,12 @@ def run_context(fn, st, binding=None, resolved=True, extra_tests=()):
         _literals(tnf, pol, lits)
     for t_, pol_ in extra_tests:
         tnf = sym.Normalizer().n(t_)
-        if resolved:
+        if resolved == 'temps':
+            try:
+                tnf = sym.expand_temps(tnf, fn.cdefs())
+            except Exception:
+                pass
+        elif resolved:
             try:
                 r_ = sym.Normalizer(resolver=fn.resolver(st)).n(t_)
                 if '#phi' not in repr(r_):
@@ -967,10 +978,10 @@ def loop_exits(fn, rule, inst, loop, binding=None):
             else:
                 for x in own_jumps(ch, inner):
                     yield x
-    tables = {'as written': {}, 'resolved': {}}
+    tables = {'as written': {}, 'resolved': {}, 'temporaries written out': {}}
     for j in own_jumps(loop, False):
         for reading in tables:
-            c = run_context(fn, j, binding, resolved=(reading == 'resolved'))
+            c = run_context(fn, j, binding, resolved={'as written': False, 'resolved': True}.get(reading, 'temps'))
             if c is not None:
                 k = '%s %s' % (type(j).__name__.lower(), ' & '.join(c) or 'always')
                 tables[reading].setdefault(k, []).append(j)
@@ -978,7 +989,7 @@ def loop_exits(fn, rule, inst, loop, binding=None):
                           inst='every iteration of the loop runs to its end except through the documented break/continue/return: %s' % inst)
 
 
-def context_obligations(fn, rule, matched, binding, root=None, conj_of=None):
+def context_obligations(fn, rule, matched, binding, root=None, conj_of=None, raises_only=False):
     """CONTEXT: each documented statement, and each return of the function, runs under the conditions
     recorded for it in flowlint/contexts.json (frozen from the reviewed tree by tools/freeze_contexts.py)."""
     cx = fn.cx
@@ -991,28 +1002,30 @@ def context_obligations(fn, rule, matched, binding, root=None, conj_of=None):
         ctx = run_context(fn, st, binding, resolved=False, extra_tests=extra)
         if ctx is None:
             continue
-        cx.context_ob(fn, rule, inst, st, {'as written': ctx, 'resolved': run_context(fn, st, binding, resolved=True, extra_tests=extra)})
+        cx.context_ob(fn, rule, inst, st, {'as written': ctx, 'resolved': run_context(fn, st, binding, resolved=True, extra_tests=extra),
+                                           'temporaries written out': run_context(fn, st, binding, resolved='temps', extra_tests=extra)})
     # loops: the ways out of an iteration other than its end (break / continue / return), with their conditions
     for inst, st in matched.items():
         if isinstance(st, (ast.For, ast.While)):
             loop_exits(fn, rule, inst, st, binding)
     rets = [r for r in fn.walk(root, into_nested=False) if isinstance(r, ast.Return)]
     tables = {}
-    for reading in ('as written', 'resolved'):
+    for reading in ('as written', 'resolved', 'temporaries written out'):
         table = tables.setdefault(reading, {})
         for r in rets:
-            c = run_context(fn, r, binding, resolved=(reading == 'resolved'))
+            c = run_context(fn, r, binding, resolved={'as written': False, 'resolved': True}.get(reading, 'temps'))
             if c is not None:
                 table.setdefault(' & '.join(c) or 'always', []).append(r)
-    cx.context_returns(fn, rule, tables)
+    if not raises_only:
+        cx.context_returns(fn, rule, tables)
     # ... and refuses (raises) under the documented conditions only: exception type + run conditions of every
     # `raise` of the function (messages do not matter)
     raises = [r for r in fn.walk(root, into_nested=False) if isinstance(r, ast.Raise)]
     rtab = {}
-    for reading in ('as written', 'resolved'):
+    for reading in ('as written', 'resolved', 'temporaries written out'):
         t_ = rtab.setdefault(reading, {})
         for r in raises:
-            c = run_context(fn, r, binding, resolved=(reading == 'resolved'))
+            c = run_context(fn, r, binding, resolved={'as written': False, 'resolved': True}.get(reading, 'temps'))
             if c is not None:
                 e_ = r.exc.func if isinstance(r.exc, ast.Call) else r.exc
                 ty = (dotted(e_) or 'raise').split('.')[-1] if e_ is not None else 're-raise'
@@ -1114,10 +1127,10 @@ def _roles_not_redefined(fn, rule, matched, binding, root=None, extra_defs_ok=()
                 seen.add((name, id(st)))
                 fn.cx.pending_redef.append((fn, rule, roles[name], name, st))
     for role in sorted(inits):
-        tables = {'as written': {}, 'resolved': {}}
+        tables = {'as written': {}, 'resolved': {}, 'temporaries written out': {}}
         for st in inits[role]:
             for reading in tables:
-                c = run_context(fn, st, binding, resolved=(reading == 'resolved'))
+                c = run_context(fn, st, binding, resolved={'as written': False, 'resolved': True}.get(reading, 'temps'))
                 if c is not None:
                     k = '%s %s' % (sym.show(sym.norm(st.value)), ' & '.join(c) or 'always')
                     tables[reading].setdefault(k, []).append(st)
